@@ -12,6 +12,7 @@ import (
 var (
 	errNotFound       = errors.New("not found")
 	errGone           = errors.New("gone")
+	errBadRequest     = errors.New("bad request")
 	ErrAtoInfTimeline = errors.New("infinite availabilityTimeOffset for SegmentTimeline")
 )
 
